@@ -17,7 +17,7 @@ func init() {
 		family{"K-nested-coro", 6, famNestedCoro},
 		family{"K-peek-skip", 4, famPeekSkip},
 		family{"K-copy", 4, famCopy},
-		family{"S-iterate", 7, famIterate},
+		family{"S-iterate", 10, famIterate},
 		family{"S-const-table", 3, famConstTable},
 		family{"S-second-part", 2, famSecondPart},
 		family{"S-sat-mod-ops", 1, famSatModOps},
@@ -347,6 +347,30 @@ func famIterate(g *genctx, v int) *scen {
 		length, adv, unroll = 8, 8, 4
 	}
 	idx := length - 1
+	if v >= 7 {
+		// near-misses: the else block (windows of 1 or 2 bytes) reaches further
+		// than its own window, which only the first block's length would allow
+		elseLen, acc := 1, "p[1]"
+		switch v {
+		case 8:
+			acc = "p.peek_u16le()"
+		case 9:
+			elseLen, acc = 2, "p[3]"
+		}
+		s := &scen{features: []string{"iterate", "else-block-window"}}
+		s.fields = []string{f + " : base.u32"}
+		s.methods = []string{
+			fmt.Sprintf("pub func obj.%s!(x: roslice base.u8) base.u32 {\n    var p : roslice base.u8\n    var h : base.u32\n    h = this.%s\n    iterate (p = args.x)(length: 4, advance: 4, unroll: 1) {\n        h = (h ~mod* 31) ~mod+ (p[3] as base.u32)\n    } else (length: %d, advance: %d, unroll: 1) {\n        h = (h ~mod* 33) ^ (%s as base.u32)\n    }\n    this.%s = h\n    return h\n}", m, f, elseLen, elseLen, acc, f),
+		}
+		s.drive = func(r *rand.Rand) []Call {
+			var out []Call
+			for _, n := range []int{0, 1, 2, 3, 5, 6, 7, 9} {
+				out = append(out, Call{Method: m, Args: []Arg{{Kind: "slice", Slice: randBytes(r, n)}}})
+			}
+			return out
+		}
+		return s
+	}
 	if v >= 4 {
 		// two (v == 6: three) slices advance together; the shortest one bounds the loop
 		switch v {
